@@ -11,17 +11,15 @@
 #[path = "../serial_ref.rs"]
 mod serial_ref;
 
-use domain::base::iana::{Class, Rtype, SecurityAlgorithm};
+use domain::base::iana::{Class, SecurityAlgorithm};
 use domain::base::name::Name;
-use domain::base::rdata::ComposeRecordData;
 use domain::base::{Record, Serial, Ttl};
 use domain::crypto::sign::{SignError, SignRaw, Signature};
 use domain::dnssec::sign::keys::SigningKey;
 use domain::dnssec::sign::records::Rrset;
 use domain::dnssec::sign::signatures::rrsigs::sign_rrset;
 use domain::rdata::dnssec::Timestamp;
-use domain::rdata::{Dnskey, Rrsig, Soa, A};
-use octseq::parse::Parser;
+use domain::rdata::{Dnskey, A};
 use serde_json::{json, Value};
 use serial_ref::*;
 use std::str::FromStr;
@@ -32,48 +30,6 @@ thread_local! {
         .enable_all()
         .build()
         .expect("runtime");
-}
-
-/// The serial of an SOA record after a wire round trip.
-fn soa_serial_via_wire(x: u32) -> Serial {
-    let mname = Name::<Vec<u8>>::from_str("ns.example.").unwrap();
-    let rname = Name::<Vec<u8>>::from_str("host.example.").unwrap();
-    let soa = Soa::new(
-        mname,
-        rname,
-        Serial(x),
-        Ttl::from_secs(3600),
-        Ttl::from_secs(600),
-        Ttl::from_secs(86400),
-        Ttl::from_secs(60),
-    );
-    let mut buf: Vec<u8> = Vec::new();
-    soa.compose_rdata(&mut buf).unwrap();
-    let mut p = Parser::from_ref(buf.as_slice());
-    let back = Soa::parse(&mut p).unwrap();
-    back.serial()
-}
-
-/// expiration / inception of an RRSIG after a wire round trip.
-fn rrsig_times_via_wire(exp: u32, inc: u32) -> (Timestamp, Timestamp) {
-    let signer = Name::<Vec<u8>>::from_str("example.").unwrap();
-    let rrsig = Rrsig::new(
-        Rtype::A,
-        SecurityAlgorithm::ED25519,
-        2,
-        Ttl::from_secs(300),
-        Timestamp::from(exp),
-        Timestamp::from(inc),
-        4711,
-        signer,
-        vec![0u8; 8],
-    )
-    .unwrap();
-    let mut buf: Vec<u8> = Vec::new();
-    rrsig.compose_rdata(&mut buf).unwrap();
-    let mut p = Parser::from_ref(buf.as_slice());
-    let back = Rrsig::parse(&mut p).unwrap();
-    (back.expiration(), back.inception())
 }
 
 /// A key that "signs" with a constant: only the validity-period decision of
@@ -167,15 +123,29 @@ fn cmp_case(k: u32, a: u64, b: u64) -> Value {
             && (ta <= tb) == (ts == "LT" || ts == "EQ")
             && (ta >= tb) == (ts == "GT" || ts == "EQ")
             && (ta == tb) == (ts == "EQ");
-        let (re, ri) = rrsig_times_via_wire(aa, bb);
+        // the conversion routes that carry a serial / signature times must
+        // all hand on the same value (the zone-file text routes on a part of
+        // the cases: all of the 5-bit ones, every 16th otherwise)
+        let text = k <= 5 || (a * 31 + b) % 16 == 0;
+        let soa = match (serial_routes(aa), serial_routes(bb),
+                         soa_serial_routes(aa, text), soa_serial_routes(bb, text)) {
+            (Ok(x), Ok(y), Ok(sx), Ok(sy)) if x == sx && y == sy => {
+                ord_str(Serial(sx).partial_cmp(&Serial(sy))).to_string()
+            }
+            (x, y, sx, sy) => format!("ROUTES: {x:?} {y:?} {sx:?} {sy:?}"),
+        };
+        let rrsig = match rrsig_times_routes(aa, bb) {
+            Ok((e, i)) => ord_str(Timestamp::from(e).partial_cmp(&Timestamp::from(i))).to_string(),
+            Err(e) => format!("ROUTES: {e}"),
+        };
         let obs = json!({
             "serial": lib_cmp(aa, bb),
             "ops": {"lt": sa < sb, "le": sa <= sb, "gt": sa > sb, "ge": sa >= sb,
                     "eq": sa == sb},
             "rev": lib_cmp(bb, aa),
             "timestamp": if ts_ops_ok { ts } else { "OPS_INCONSISTENT" },
-            "soa": ord_str(soa_serial_via_wire(aa).partial_cmp(&soa_serial_via_wire(bb))),
-            "rrsig": ord_str(re.partial_cmp(&ri)),
+            "soa": soa,
+            "rrsig": rrsig,
             "sign": sign_decision(aa, bb),
             "diff": if aa.wrapping_sub(bb) == 0x8000_0000 { "any" } else { diff_decision(aa, bb) },
             // IXFR request of a client at serial aa to a server at serial bb
@@ -360,6 +330,118 @@ fn text_case(k: u32, t1: u64, t2: u64) -> Value {
     first.unwrap_or(json!({"no_offsets": true}))
 }
 
+/// Validity windows: the k-bit triple (lo, hi, x) is lifted with equal
+/// offsets on all three (exact for every triple) and -- where no two of the
+/// quantities that the decision compares coincide -- with independent
+/// offsets: with d = (x - lo) mod 2^k and w = (hi - lo) mod 2^k the lifted
+/// decision d32 < w32 equals d < w whenever d is neither 0 nor w and w is not
+/// 0 (then d*S + c_x < w*S + c_hi follows from d < w and conversely, and
+/// neither lifted difference wraps).  Ill-formed windows (w >= 2^(k-1)) are
+/// executed for totality; the spec leaves their answer open ("any").
+fn window_case(k: u32, lo: u64, hi: u64, x: u64) -> Value {
+    let sh = 32 - k;
+    let s: u64 = 1u64 << sh;
+    let m: u64 = 1u64 << k;
+    let d = (x + m - lo) % m;
+    let w = (hi + m - lo) % m;
+    let well_formed = w < m / 2;
+    let mut rng = Rng::new(seed() ^ (lo << 25) ^ (hi << 13) ^ (x << 3) ^ (k as u64) << 45);
+    let r = rng.below(s);
+    let mut offs: Vec<(u64, u64, u64)> = vec![(0, 0, 0), (s - 1, s - 1, s - 1), (r, r, r)];
+    if well_formed && d != 0 && d != w && w != 0 {
+        offs.extend_from_slice(&[(0, s - 1, 0), (s - 1, 0, s - 1), (0, 0, s - 1), (s - 1, s - 1, 0),
+                                 (rng.below(s), rng.below(s), rng.below(s))]);
+    }
+    offs.sort();
+    offs.dedup();
+    let mut first: Option<Value> = None;
+    for (c_lo, c_hi, c_x) in offs {
+        let lo32 = ((lo << sh) + c_lo) as u32;
+        let hi32 = ((hi << sh) + c_hi) as u32;
+        let x32 = ((x << sh) + c_x) as u32;
+        let mut obs = window_sites(lo32, hi32, x32);
+        if !well_formed {
+            for site in ["cookie", "newrange", "range", "tsrange"] {
+                if obs[site] == "accept" || obs[site] == "reject" {
+                    obs[site] = json!("any");
+                }
+            }
+        }
+        match &first {
+            None => first = Some(obs),
+            Some(f) if *f != obs => {
+                return json!({"offsets_disagree": {"lo32": lo32, "hi32": hi32, "x32": x32,
+                                                   "first": f, "this": obs}});
+            }
+            _ => {}
+        }
+    }
+    first.unwrap_or(json!({"no_offsets": true}))
+}
+
+/// Instants: the k-bit instants t1, t2 (negative: before the epoch) are
+/// lifted to era * 2^32 + (t mod 2^k) * 2^(32-k) + c with era = floor(t /
+/// 2^k), handed to the library as `jiff::Timestamp`s and converted into
+/// serials; the serials are unlifted and compared, and where t2 is 0 ..
+/// 2^(k-1)-1 seconds after t1 the first serial is advanced by the elapsed
+/// (lifted) seconds with `Serial::add`.
+fn instant_case(k: u32, t1: i64, t2: i64) -> Value {
+    let sh = 32 - k;
+    let s: i64 = 1i64 << sh;
+    let m: i64 = 1i64 << k;
+    let lift = |t: i64, c: i64| (t.div_euclid(m) << 32) + (t.rem_euclid(m) << sh) + c;
+    let mut rng = Rng::new(seed() ^ ((t1 + 4 * m) as u64) << 26 ^ ((t2 + 4 * m) as u64) << 9
+                           ^ (k as u64) << 46);
+    let r = rng.below(s as u64) as i64;
+    let mut offs: Vec<(i64, i64)> = vec![(0, 0), (s - 1, s - 1), (r, r)];
+    let dk = (t2 - t1).rem_euclid(m);
+    let adv = (0..m / 2).contains(&(t2 - t1));
+    if dk != 0 && dk != m / 2 {
+        offs.extend_from_slice(&[(0, s - 1), (s - 1, 0),
+                                 (rng.below(s as u64) as i64, rng.below(s as u64) as i64)]);
+    }
+    offs.sort();
+    offs.dedup();
+    let mut first: Option<Value> = None;
+    for (c1, c2) in offs {
+        let (a, b) = (lift(t1, c1), lift(t2, c2));
+        let obs = match (lib_instant(a), lib_instant(b)) {
+            (Ok(v1), Ok(v2)) => {
+                let un = |v: u32, c: i64| {
+                    let base = (v as i64) - c;
+                    if base >= 0 && base % s == 0 { json!(base >> sh) } else { json!({"badlift": v}) }
+                };
+                json!({
+                    "v1": un(v1, c1), "v2": un(v2, c2),
+                    "cmp": lib_cmp(v1, v2),
+                    "adv": if adv {
+                        match lib_add(v1, (b - a) as u32) {
+                            Some(v) => json!({"ok": un(v, c2)}),
+                            None => json!({"panic": true}),
+                        }
+                    } else {
+                        json!({"na": true})
+                    },
+                })
+            }
+            (x, y) => json!({"conversion": [format!("{x:?}"), format!("{y:?}")], "t1": a, "t2": b}),
+        };
+        match &first {
+            None => first = Some(obs),
+            Some(f) if *f != obs => {
+                return json!({"offsets_disagree": {"c1": c1, "c2": c2, "t1": a, "t2": b,
+                                                   "first": f, "this": obs}});
+            }
+            _ => {}
+        }
+    }
+    first.unwrap_or(json!({"no_offsets": true}))
+}
+
+fn a_or(input: &Value, key: &str) -> u64 {
+    input[key].as_u64().unwrap_or(0)
+}
+
 fn main() {
     run_cases(|input| {
         let k = input["k"].as_u64().unwrap_or(0) as u32;
@@ -374,6 +456,17 @@ fn main() {
                 k,
                 input["t1"].as_u64().unwrap_or(0),
                 input["t2"].as_u64().unwrap_or(0),
+            ),
+            Some("window") => window_case(
+                k,
+                a_or(input, "lo"),
+                a_or(input, "hi"),
+                a_or(input, "x"),
+            ),
+            Some("instant") => instant_case(
+                k,
+                input["t1"].as_i64().unwrap_or(0),
+                input["t2"].as_i64().unwrap_or(0),
             ),
             Some("place") => place_case(
                 k,
